@@ -161,6 +161,11 @@ def build(name):
     if name == "TFR(Tagger(Ext))":
         e = TagExt()
         return Impl(ThreadsafeForwardingResult(Tagger(e, {"x"}, set()), _sem()), [e], [e], inner_tagger=frozenset("x"))
+    if name == "doubles.ExtendedTestResult":
+        # testtools' own recording double (public: other projects' suites use it)
+        from testtools.testresult.doubles import ExtendedTestResult as DoubleExt
+
+        return Impl(DoubleExt())
     if name == "Multi(Tagger(Ext),Ext)":
         e1, e2 = TagExt(), TagExt()
         return Impl(MultiTestResult(Tagger(e1, {"x"}, {"a"}), e2), [e1, e2], [e1, e2], branch=(frozenset("x"), frozenset("a")))
@@ -193,6 +198,7 @@ CONFIGS = (
     "TFR(Tagger(Ext))",
     "Multi(ETSD>STE>Ext)",
     "Multi(Tagger(Ext),Ext)",
+    "doubles.ExtendedTestResult",
 )
 
 # where the observed tags are a function of forwarded tag calls that only happen inside tests
@@ -358,6 +364,8 @@ class System:
                     problems.append(("observed-tags-retroactive", "a tag set reported earlier as %r has since become %r" % (sorted(frozen), sorted(obj))))
                     break
         # consume harness logs so that canonical states only hold persistent state
+        if isinstance(getattr(top, "_events", None), list):
+            del top._events[:]  # (testtools' recording double keeps every call)
         for o in impl.observers:
             del o.seen[:]
         for s in impl.sinks:
